@@ -48,3 +48,7 @@ PROPS = {
     "C15": {"level": "exploration", "parts": [part("names", "stack", "TestVerifC15")]},
     "C12": {"level": "exploration", "parts": [part("agg", "stack", "TestVerifC12")]},
 }
+
+# plain replays of repaired defects, attached to the property that found them
+for _p in ("C01", "C02", "C03", "C06", "C07", "C17", "C18", "C19"):
+    PROPS[_p]["parts"].append(part("regress", "stack", "TestVerifRegress", shards=1))
